@@ -252,3 +252,131 @@ def c05(ctx):
     vlib.harness(["gen", "pipe", ctx.seed, 600 if q else 6000, rnd])
     rc = [c for c in vlib.read_ndjson(rnd)]
     pipe_judge(ctx, rc, "B", C05_CLAUSES)
+
+
+def buffered_cfg(N, cap, drain="FALSE", props="StopsAfterDrop"):
+    return ("CONSTANTS N = %d Cap = %d DrainOnFail = %s\nSPECIFICATION Spec\n"
+            "INVARIANTS InOrder Complete LookAhead AfterDrop\nPROPERTIES %s\nCHECK_DEADLOCK FALSE\n" % (N, cap, drain, props))
+
+
+def buffered_paths(ctx, N, cap):
+    import graph
+    label = "buffered-N%dC%d" % (N, cap)
+    dot = ctx.path(label + ".dot")
+    r = vlib.tlc(ctx, "Buffered", buffered_cfg(N, cap), workers=2, name=label, coverage=True,
+                 extra=["-dump", "dot,actionlabels", dot[:-4]])
+    if not r["ok"]:
+        raise ToolError("Buffered model checking failed:\n" + "\n".join(r["out"].splitlines()[-40:]))
+    ctx.mc.append({"module": "Buffered", "config": "N=%d Cap=%d" % (N, cap), "distinct_states": r["states"],
+                   "states_generated": r["generated"], "actions": vlib.action_coverage(r["out"])})
+    ctx.states += r["states"]
+    ctx.transitions += r["generated"]
+    nodes, edges, inits = graph.parse_dot(dot)
+    os.remove(dot)
+    paths, ncov = graph.edge_cover_paths(edges, inits)
+    tok = {"Pull": "p", "StartRecv": "c", "Drop": "x"}
+    cases = [{"mode": "buffered", "ctl": "controlled", "cap": cap, "N": N,
+              "sched": [tok[l] for l in labels if l in tok], "spec_path": labels} for _, labels in paths]
+    ctx.extra["graph_edges_covered"] = ctx.extra.get("graph_edges_covered", 0) + ncov
+    log("[paths] Buffered N=%d Cap=%d: %d states, %d edges, %d covering schedules" % (N, cap, len(nodes), len(edges), len(cases)))
+    return cases
+
+
+def buffered_judge(ctx, cases, label, clauses):
+    cpath = ctx.path("cases-%s.ndjson" % label)
+    vlib.write_ndjson(cpath, cases)
+    obs_path = ctx.path("obs-%s.ndjson" % label)
+    vlib.harness(["exec", "buffered", cpath, obs_path, 60000])
+    obs = vlib.read_ndjson(obs_path)
+    fails, drifts, st = vlib.judge(ctx, "Trace_PipeObs", obs_path, len(obs), name="Trace_PipeObs-" + label)
+    ctx.traces += len(obs)
+    ctx.evaluations += len(obs)
+    ctx.nontrivial += st["nt"]
+    for idx, why in fails:
+        rec = obs[idx - 1]
+        mine = [w for w in why if w in clauses or w.startswith("harness") or w == "hang"]
+        if not mine:
+            continue
+        if set(mine) <= TIMING_CLAUSES:
+            c2 = ctx.path("rerun-b.ndjson")
+            o2 = ctx.path("rerun-b-obs.ndjson")
+            vlib.write_ndjson(c2, [rec["case"]])
+            vlib.harness(["exec", "buffered", c2, o2, 60000])
+            f2, _, _ = vlib.judge(ctx, "Trace_PipeObs", o2, 1, name="Trace_PipeObs-rerun", workers=1)
+            if not f2 or not (set(f2[0][1]) & set(mine)):
+                ctx.extra["timing_retries"] = ctx.extra.get("timing_retries", 0) + 1
+                continue
+        vlib.report(ctx, mine, rec, component="pipe", case=rec["case"], kind="schedule")
+    if obs and len(ctx.samples) < 6:
+        r = obs[len(obs) // 3]
+        ctx.samples.append({"source": label, "cap": r["cap"], "N": r["N"], "ctl": r["ctl"],
+                            "schedule": r.get("sched", [])[:60],
+                            "events": ["%s(%s)" % (e["e"], e["x"]) for e in r["ev"][:60]]})
+    return obs
+
+
+def child_panic_runs(ctx, combos):
+    """C09 panic clause: real child processes (the library's panic hook calls process::exit)."""
+    import subprocess
+    vlib.build_harness()
+    recs = []
+    for (W, N, fail) in combos:
+        try:
+            p = subprocess.run([vlib.harness_bin(), "child-panic", str(W), str(N), str(fail)],
+                               stdout=subprocess.PIPE, stderr=subprocess.PIPE, text=True, timeout=10)
+            ex = "code:%d" % p.returncode
+        except subprocess.TimeoutExpired:
+            ex = "hang"
+        recs.append({"st": "ok", "mode": "child", "W": W, "N": N, "cap": W, "fail": fail, "exit": ex, "ev": [],
+                     "acts": [], "path": [], "drained": True, "case": {"mode": "child", "W": W, "N": N, "fail": fail}})
+    opath = ctx.path("obs-child.ndjson")
+    vlib.write_ndjson(opath, recs)
+    fails, _, st = vlib.judge(ctx, "Trace_PipeObs", opath, len(recs), name="Trace_PipeObs-child", workers=2)
+    ctx.traces += len(recs)
+    ctx.evaluations += len(recs)
+    ctx.nontrivial += st["nt"]
+    for idx, why in fails:
+        vlib.report(ctx, why, recs[idx - 1], component="pipe", case=recs[idx - 1]["case"], kind="child-panic")
+    ctx.samples.append({"source": "child-panic", "runs": [[r["W"], r["N"], r["fail"], r["exit"]] for r in recs[:8]]})
+
+
+@prop("C09")
+def c09(ctx):
+    q = ctx.quick()
+    ctx.rule = ("MC: Pipe.tla with Drop at every point and with a panicking item (negative control: no panic hook), "
+                "Buffered.tla for capacities 0..2 (negative control: producer ignores the send error); "
+                "A: edge covers of the Pipe-with-drop and Buffered state graphs replayed on the real code; "
+                "B: random controlled schedules with drops, free-running drop/abandon runs incl. an effectively "
+                "unbounded upstream, child processes with a panicking item. non-trivial = drop while a worker is "
+                "active / look-ahead bound reached / child run")
+    ctx.assumptions = ["exit of background threads is observed through the drop of the upstream iterator",
+                       "a hang is declared after 1.5 s (controlled step), 3 s (producer exit) or 10 s (child process) for work of microseconds; timing-only verdicts are re-run once"]
+    # design: panic with / without the hook
+    for (W, N) in ([(2, 3)] if q else [(2, 4), (3, 4)]):
+        lens = "{%d}" % N
+        vlib.mc(ctx, "Pipe", pipe_cfg(W, N, lens, fail="{1}", hook="TRUE", drop="FALSE", invs="TypeOK InOrder AtMostOnce", props="NoWedge"),
+                name="Pipe-panic-hook-W%dN%d" % (W, N), disabled_ok=("Drop", "End"))
+        vlib.mc(ctx, "Pipe", pipe_cfg(W, N, lens, fail="{1}", hook="FALSE", drop="FALSE", invs="TypeOK", props="NoWedge"),
+                name="Pipe-panic-nohook-W%dN%d" % (W, N), expect_violation="NoWedge", coverage=False)
+    # look-ahead bound is independent of the upstream length
+    for N in ([4, 6] if q else [4, 6, 8]):
+        vlib.mc(ctx, "Pipe", pipe_cfg(2, N, "{%d}" % N, props="StopsAfterDrop"), name="Pipe-drop-W2N%d" % N)
+    cases = []
+    for (W, N) in ([(1, 2), (2, 2)] if q else [(1, 3), (2, 3), (3, 2)]):
+        cases += pipe_paths(ctx, W, N, True, "drop-W%dN%d" % (W, N))
+    pipe_judge(ctx, cases, "A-pipe", C09_CLAUSES)
+    # Buffered
+    bcases = []
+    for cap in (0, 1, 2):
+        vlib.mc(ctx, "Buffered", buffered_cfg(3, cap, drain="TRUE"), name="Buffered-neg-C%d" % cap,
+                expect_violation="AfterDrop|LookAhead", coverage=False)
+        bcases += buffered_paths(ctx, 3 if q else 5, cap)
+    buffered_judge(ctx, bcases, "A-buffered", C09_CLAUSES)
+    ctx.exhaustive = True
+    rnd = ctx.path("cases-b.ndjson")
+    vlib.harness(["gen", "pipe", ctx.seed + 7, 500 if q else 5000, rnd])
+    pipe_judge(ctx, vlib.read_ndjson(rnd), "B-pipe", C09_CLAUSES)
+    vlib.harness(["gen", "buffered", ctx.seed + 11, 300 if q else 3000, rnd])
+    buffered_judge(ctx, vlib.read_ndjson(rnd), "B-buffered", C09_CLAUSES)
+    combos = [(1, 4, 0), (2, 5, 2), (4, 6, 5)] if q else [(w, n, f) for w in (1, 2, 4) for n in (3, 8) for f in (0, n // 2, n - 1)]
+    child_panic_runs(ctx, combos)
